@@ -88,6 +88,7 @@ class _B:
         self.affine = True
         self.pnames, self.cnames, self.unames = [], [], []
         self.head_eqs = []      # equations kept in this order, before the shuffled rest
+        self.indep = []         # unknowns whose value does not depend on any state (usable in initial equations)
 
     def declare(self, name, line, value, given=False):
         self.decl[name] = line
@@ -187,7 +188,7 @@ def gen_model(rng, stream="main", size=None):
         v = b.small(nz=True)
         b.declare("c%d" % i, "constant Real c%d = %s;" % (i, lit(v)), v, given=True)
         b.cnames.append("c%d" % i)
-    if stream == "constexpr":
+    if stream == "constexpr" or r.random() < 0.35:
         # a constant defined through another constant (finding C15-F1 when the values are replaced
         # without resolving the expressions first)
         b.declare("cc0", "constant Real cc0 = 2*c0 + 1;", 2 * b.sol["c0"] + 1, given=True)
@@ -450,6 +451,8 @@ def gen_model(rng, stream="main", size=None):
             raise HarnessError("unknown kind " + kind)
         b.declare(v, "Real %s%s;" % (v, b.attrs()), val)
         b.unknowns.append(v)
+        if kind in ("const", "zero", "paramexpr", "paramalias", "inputalias"):
+            b.indep.append(v)
         b.eqs.append(eq)
         b.kinds.append(kind)
         i += 1
@@ -470,18 +473,20 @@ def gen_model(rng, stream="main", size=None):
         b.kinds.append("der-" + form)
         if r.random() < 0.6 or stream == "affineinit":
             xv = b.sol[x]
-            pc = r.choice(b.pnames + b.cnames)
+            exprs = [q for q in b.pnames + b.cnames if q.startswith(("q", "cc"))]
+            pc = r.choice(exprs) if exprs and r.random() < 0.6 else r.choice(b.pnames + b.cnames)
             rest = xv - b.sol[pc]
             forms = ["%s = %s" % (x, lit(xv) if xv >= 0 else par(lit(xv))),
                      "%s - %s = 0" % (x, lit(xv) if xv >= 0 else par(lit(xv))),
                      # initial equations that mention a parameter / constant (they are substituted by the passes too)
                      "%s = %s + %s" % (x, pc, lit(rest) if rest >= 0 else par(lit(rest))),
                      "%s - %s = %s" % (x, pc, lit(rest) if rest >= 0 else par(lit(rest)))]
-            if b.unknowns:
-                w = r.choice(b.unknowns)
+            if b.indep:
+                # only unknowns that do not depend on a state: `x0 = w + d` with w = f(x0) would be the vacuous 0 = 0
+                w = r.choice(b.indep)
                 d = xv - b.sol[w]
                 forms.append("%s = %s + %s" % (x, w, lit(d) if d >= 0 else par(lit(d))))
-            b.inits.append(r.choice(forms))
+            b.inits.append(r.choice(forms[2:4]) if r.random() < 0.45 else r.choice(forms))
     if stream == "delay":
         # a delayed expression over variables that the passes eliminate (aliases, constant assignments, eliminable
         # variables), a constant and a parameter (former finding C15-F4): every substituting pass must rewrite it
@@ -631,7 +636,7 @@ def gen_options(rng, case):
             o["iterative_simplification"] = True
     elif stream == "constexpr":
         o["replace_constant_values"] = True
-        o["replace_constant_expressions"] = False
+        o["replace_constant_expressions"] = rng.random() < 0.3
     elif stream == "delay":
         o["replace_parameter_values"] = rng.random() < 0.7
         for k in ("detect_aliases", "eliminate_constant_assignments", "replace_constant_values"):
@@ -1396,39 +1401,54 @@ def _names(vs):
 
 
 def compare_states(drv, rng, model_st, real_st, real_m, what):
-    """Differences between the model's outcome of a pass and the real outcome (both serialised)."""
+    """Differences between the model's outcome of a pass and the real outcome (both serialised).
+
+    Neither C14 nor C15 fixes the order of a variable list or of the equation list, so the lists are
+    compared as sets of names (flags and values by name) and the equations / initial equations as
+    multisets of their values at exact points; only the delay arguments (positionally tied to the
+    delay states) are compared in order."""
     diffs = []
     for g in ("states", "ders", "algs", "inputs", "params", "consts"):
-        if _names(model_st[g]) != _names(real_st[g]):
-            diffs.append("%s: model %s, real %s" % (g, _names(model_st[g]), _names(real_st[g])))
-        elif [v["a"] for v in model_st[g]] != [v["a"] for v in real_st[g]]:
-            diffs.append("%s aliases-attribute flags: model %s, real %s" % (g, [v["a"] for v in model_st[g]], [v["a"] for v in real_st[g]]))
+        if sorted(_names(model_st[g])) != sorted(_names(real_st[g])):
+            diffs.append("%s: model %s, real %s" % (g, sorted(_names(model_st[g])), sorted(_names(real_st[g]))))
+        else:
+            fa = {v["n"]: v["a"] for v in model_st[g]}
+            fb = {v["n"]: v["a"] for v in real_st[g]}
+            if fa != fb:
+                diffs.append("%s aliases-attribute flags: model %s, real %s" % (g, sorted(fa.items()), sorted(fb.items())))
     if diffs:
         return diffs
-    pairs = []
+    pairs = []          # compared position by position
+    bags = {}           # compared as multisets: group -> (model trees, real trees)
     for g in ("eqs", "inits"):
         if len(model_st[g]) != len(real_st[g]):
             diffs.append("%s: model keeps %d, real keeps %d" % (g, len(model_st[g]), len(real_st[g])))
         else:
-            pairs += [(g, i, a, b) for i, (a, b) in enumerate(zip(model_st[g], real_st[g]))]
+            bags[g] = (list(model_st[g]), list(real_st[g]))
     if len(model_st["delays"]) != len(real_st["delays"]):
         diffs.append("delay arguments: model %d, real %d" % (len(model_st["delays"]), len(real_st["delays"])))
     else:
         for i, (a, b) in enumerate(zip(model_st["delays"], real_st["delays"])):
             pairs += [("delay-expr", i, a[0], b[0]), ("delay-duration", i, a[1], b[1])]
     for g in ("params", "consts"):
-        for i, (a, b) in enumerate(zip(model_st[g], real_st[g])):
-            if (a["v"] is None) != (b["v"] is None):
-                diffs.append("value of %s: model %s, real %s" % (a["n"], a["v"], b["v"]))
+        rv = {v["n"]: v["v"] for v in real_st[g]}
+        for i, a in enumerate(model_st[g]):
+            bv = rv[a["n"]]
+            if (a["v"] is None) != (bv is None):
+                diffs.append("value of %s: model %s, real %s" % (a["n"], a["v"], bv))
             elif a["v"] is not None:
-                pairs.append(("value:" + a["n"], i, a["v"], b["v"]))
+                pairs.append(("value:" + a["n"], i, a["v"], bv))
     if diffs:
         return diffs
     names = set()
     for _, _, a, b in pairs:
         names.update(tree_syms(a))
         names.update(tree_syms(b))
-    for env in _env_points(rng, names):
+    for ta, tb in bags.values():
+        for t in ta + tb:
+            names.update(tree_syms(t))
+    envs = _env_points(rng, names)
+    for env in envs:
         va = _eval_lean(drv, [p[2] for p in pairs], env)
         vb = _eval_lean(drv, [p[3] for p in pairs], env)
         for (g, i, a, b), x, y in zip(pairs, va, vb):
@@ -1436,6 +1456,19 @@ def compare_states(drv, rng, model_st, real_st, real_m, what):
                 diffs.append("%s[%d] differs at an exact point: model %s = %s, real %s = %s" % (g, i, a, x, b, y))
         if diffs:
             return diffs[:4]
+    for g, (ta, tb) in bags.items():
+        if not ta:
+            continue
+        cols_a = [_eval_lean(drv, ta, env) for env in envs]
+        cols_b = [_eval_lean(drv, tb, env) for env in envs]
+        sig_a = sorted(tuple(c[i] for c in cols_a) for i in range(len(ta)))
+        sig_b = sorted(tuple(c[i] for c in cols_b) for i in range(len(tb)))
+        if sig_a != sig_b:
+            only_a = [x for x in sig_a if x not in sig_b][:2]
+            only_b = [x for x in sig_b if x not in sig_a][:2]
+            diffs.append("%s differ as multisets of values at exact points: only model %s, only real %s" % (g, only_a, only_b))
+    if diffs:
+        return diffs[:4]
     # the recorded alias relation
     univ = sorted(set(model_st["ar"]["canon"].keys()))
     real_ar = observe_ar(real_m, univ)
@@ -1524,7 +1557,7 @@ def tie_case(ctx, prop, case, r, drv):
                     continue
                 # observed renormalisation (vector expansion of a scalar model, SX round trip): value-preserving?
                 a, b = ser_state(pre_m), ser_state(post_m)
-                if any(_names(a[g]) != _names(b[g]) for g in ("states", "ders", "algs", "inputs", "params", "consts")):
+                if any(sorted(_names(a[g])) != sorted(_names(b[g])) for g in ("states", "ders", "algs", "inputs", "params", "consts")):
                     ctx.count("tie:vector-expansion-renamed-variables")    # property C18's business
                     return
                 if state_ok(a) and state_ok(b):
@@ -1541,7 +1574,8 @@ def tie_case(ctx, prop, case, r, drv):
         break
     # the chained single passes must end where the real run ended
     if r.exc is None and r.model is not None and not hasattr(r.model, "_states_vector"):
-        if categories(pre_m) != r.cat or len(pre_m.equations) != len(r.model.equations):
+        if {k: sorted(v) for k, v in categories(pre_m).items()} != {k: sorted(v) for k, v in r.cat.items()} or \
+                len(pre_m.equations) != len(r.model.equations):
             if not (iterative and j >= 3):
                 ctx.disagreement("simplify.loop", case, model=[categories(pre_m), len(pre_m.equations)],
                                  impl=[r.cat, len(r.model.equations)])
